@@ -24,9 +24,12 @@ import (
 //	          level i<d = the statement containing the call of level i+1)
 //	id 100+j  statement containing the j-th import that is still running
 //	id 200    the recursing statement of the frame-overflow template
+//	id 201    the statement calling the host counter in the recursing function
+//	          of the operand-stack overflow templates (⟦ ⟧ in the operation table)
 const (
 	idImport  = 100
 	idRecurse = 200
+	idTick    = 201
 )
 
 func mark(id int, s string) string { return fmt.Sprintf("\x00S%d;%s\x00E%d;", id, s, id) }
@@ -516,10 +519,16 @@ func pickOp(g *gen, mode string) failOp {
 	}
 	gr := groups[g.intn("group", 0, len(groups)-1)]
 	if mode == "overflow" {
-		// the wide template is an open finding (always discarded while the
-		// switch is on): draw it rarely so the test keeps its case count
+		// one slot per frame (MaxFrames reached first) and several slots per
+		// frame (operand stack exhausted first) in equal shares; while the
+		// finding about the latter was open it was drawn in 10 % of the cases
+		// only (always discarded) so that the test kept its case count
 		gr = "frame-overflow"
-		if g.chance("wide", 10) {
+		wide := 50
+		if openFindings[findingOpStack] {
+			wide = 10
+		}
+		if g.chance("wide", wide) {
 			gr = "frame-overflow-wide"
 		}
 	}
@@ -644,6 +653,8 @@ func genCase(t *rapid.T, mode string, forced *failOp) (p *casePayload, discard s
 			}
 			return "host." + m[1:]
 		})
+		s = strings.ReplaceAll(s, "⟦", fmt.Sprintf("\x00S%d;", idTick))
+		s = strings.ReplaceAll(s, "⟧", fmt.Sprintf("\x00E%d;", idTick))
 		s = strings.ReplaceAll(s, "«", fmt.Sprintf("\x00S%d;", id))
 		return strings.ReplaceAll(s, "»", fmt.Sprintf("\x00E%d;", id))
 	}
@@ -836,6 +847,9 @@ func genCase(t *rapid.T, mode string, forced *failOp) (p *casePayload, discard s
 	if op.Overflow {
 		p.Fail = need(idRecurse)
 		p.Trace = append(p.Trace, traceItem{Span: need(idRecurse), Repeat: -1})
+		if s, ok := spans[idTick]; ok {
+			p.Tick = &s
+		}
 		first = d
 	} else {
 		p.Fail = need(d)
